@@ -15,7 +15,8 @@ RULE = ("Hypothesis-generated parameters for each of the 12 BVLL functions (resu
         "upward decode restores every parameter; DecodingError exactly when the reference rejects (type, length, truncated "
         "body). Non-trivial: table with >= 2 entries, payload >= 1 octet, or a rejected frame that passed the type check. "
         "Distinct by octets."
-        " Also: every message built with its parameters assigned after construction.")
+        " Also: every message built with its parameters assigned after construction."
+        " Every message object is sent a second time.")
 ASSUMPTIONS = [
     "bpverif/ref/bvlc.py transcribes Annex J.2 correctly",
     "well-formed frames with function codes >= 12 are not judged here (the statement does not cover them; C10 does)",
